@@ -101,7 +101,12 @@ func checkC15(c *Ctx, r *Report) {
 
 	r2 := r.Rule("R2", "E-GUARD", "ReservePieces returns early when quota<=0 and passes the quota as the policy limit; each policy calls valid(i) before adding i and adds only while len(pieces) < limit", 3)
 	if fn := c.Func("(*" + tM + ").ReservePieces"); fn != nil {
-		qs := callsInNamed(fn, "(*"+tM+").requestQuota")
+		// the quota function is found by its role (c15Roles), not by its name
+		qname := "(*" + tM + ").requestQuota"
+		if _, q := c15Roles(c); q != nil {
+			qname = funcName(q)
+		}
+		qs := callsInNamed(fn, qname)
 		sel := callsInNamed(fn, "("+pkgPR2+".pieceSelectionPolicy).selectPieces")
 		ok := len(qs) == 1 && len(sel) == 1
 		if ok {
